@@ -97,7 +97,7 @@ package jet
 //@   callsite (*Set).loadFromFile 0 requires [first-existing-extension-wins] {C16} lastret("(Loader).Exists", 0) && templatePath == caller.templatePath + s.extensions[caller.rangeindex + 1] && cacheAfterParsing == caller.cacheAfterParsing
 
 //@ func (*Set).loadFromFile
-//@   props C15 C16 C03
+//@   props C15 C16 C03 C02
 //@   requires SetOK(s) && Canon(templatePath)
 //@   modifies ghost CM, ghost NL
 //@   nopanic
@@ -134,7 +134,7 @@ package jet
 //@   inline
 
 //@ func (*Template).addBlocks
-//@   props C08 C11 C10
+//@   props C08 C11 C10 C09
 //@   requires t != nil
 //@   modifies t.processedBlocks, map t.processedBlocks
 //@   nopanic
